@@ -1,4 +1,4 @@
-"""./check <Cxx> quick|thorough | setup | replay <file> | all [tier]
+"""./check <Cxx> quick|thorough | setup | replay <file> | all [tier] | selftest [seed ids | pinned]
 
 Decision procedure (DESIGN.md section 4):
   1 regenerate Extracted.lean from /repo, build driver + the property's theorem module
@@ -236,12 +236,67 @@ def replay(path):
     return 1
 
 
+PINNED = '9abd2ac'
+PINNED_PROPS = ['C07', 'C08', 'C10', 'C11', 'C13', 'C14', 'C17', 'C19']     # the properties D1-D9 broke
+
+
+def selftest(ids):
+    """Re-evaluate seeded changes (and, with `pinned`, the unrepaired pinned tree) WITHOUT touching /repo's working
+    tree: a scratch git worktree under /var/tmp gets the patch, the property's quick check runs on it through
+    VERIF_REPO_ROOT with evidence/replays redirected, and must exit 1 with a failing input."""
+    import shutil
+    import subprocess
+    import tempfile
+    seeded = os.path.join(VERIF, 'seeded')
+    ids = ids or sorted(os.listdir(seeded))
+    bad = []
+    for sid in ids:
+        wt = tempfile.mkdtemp(prefix='hpfeeds_selftest_', dir='/var/tmp')
+        out = tempfile.mkdtemp(prefix='hpfeeds_selftest_out_', dir='/var/tmp')
+        os.rmdir(wt)
+        try:
+            rev = PINNED if sid == 'pinned' else 'HEAD'
+            r = subprocess.run(['git', '-C', '/repo', 'worktree', 'add', '--detach', '-q', wt, rev], capture_output=True, text=True)
+            if r.returncode != 0:
+                print(sid, 'worktree failed:', r.stderr[-300:])
+                bad.append(sid)
+                continue
+            if sid == 'pinned':
+                props = PINNED_PROPS
+            else:
+                patch = os.path.join(seeded, sid, 'patch.diff')
+                r = subprocess.run(['git', 'apply', patch], cwd=wt, capture_output=True, text=True)
+                if r.returncode != 0:
+                    print(sid, 'patch does not apply to /repo HEAD:', r.stderr[-300:])
+                    bad.append(sid)
+                    continue
+                props = [sid.split('-')[0]]
+            env = dict(os.environ, VERIF_REPO_ROOT=wt, VERIF_OUT=out)
+            for p in props:
+                r = subprocess.run([sys.executable, os.path.abspath(__file__), p, 'quick'], env=env, capture_output=True, text=True, timeout=3000)
+                vio = [l for l in r.stdout.splitlines() if l.startswith('VIOLATION')]
+                ok = r.returncode == 1 and vio and 'no-failing-input-found' not in vio[0]
+                print('%-8s %s exit=%d %s' % (sid, p, r.returncode, 'caught with a failing input' if ok else ('caught, no failing input' if r.returncode == 1 else 'MISSED')), flush=True)
+                if not ok:
+                    bad.append('%s/%s' % (sid, p))
+        finally:
+            subprocess.run(['git', '-C', '/repo', 'worktree', 'remove', '--force', wt], capture_output=True)
+            shutil.rmtree(wt, ignore_errors=True)
+            shutil.rmtree(out, ignore_errors=True)
+    # leave the generated constants as the real tree has them
+    extract.extract()
+    print('selftest: %d evaluated, not caught with a failing input: %s' % (len(ids), bad or 'none'))
+    return 1 if bad else 0
+
+
 def main(argv):
     if not argv:
         print(__doc__)
         return 2
     if argv[0] == 'setup':
         return setup()
+    if argv[0] == 'selftest':
+        return selftest(argv[1:])
     if argv[0] == 'replay':
         return replay(argv[1])
     seed = int(os.environ.get('VERIF_SEED', '0') or 0)
